@@ -39,6 +39,12 @@ func main() {
 		"a value containing a quote, backslash, parenthesis or keyword; distinct = distinct (stream, redaction, text).")
 	r := hx.NewRand(o.Seed)
 	runCqlStreams(o, res, r.Fork("cql"))
-	runQuoteStream(o, res, r.Fork("quote"), o.Count(600, 40000))
+	runQuoteStream(o, res, r.Fork("quote"), o.Count(600, 20000))
+	if o.Tier == "thorough" {
+		// the cases files carry the inputs; keep result.json small
+		for i := range res.Cases {
+			res.Cases[i].Input, res.Cases[i].Impl = nil, nil
+		}
+	}
 	res.Write(o)
 }
